@@ -175,9 +175,12 @@ def planted_covers(rng, count, maxitems=300):
     for _ in range(count // 3):
         C = rng.choice([6, 12, 60, 1200])
         m = rng.randint(6, max(6, maxitems // 5))
-        shapes = [[C // 3] * 3, [C // 2] * 2, [C // 2, C // 3, C // 6], [C // 3, C // 3, C // 6, C // 6], [C // 6] * 6, [C // 2, C // 6, C // 6, C // 6]]
-        if rng.random() < 0.4:
-            shapes = shapes[:1]
+        shapes = [[C // 3] * 3, [C // 2] * 2, [C // 2, C // 3, C // 6], [C // 3, C // 3, C // 6, C // 6], [C // 6] * 6, [C // 2, C // 6, C // 6, C // 6], [C]]
+        u = rng.random()
+        if u < 0.3:
+            shapes = shapes[:1]                      # only exact thirds
+        elif u < 0.6:
+            shapes = [[C], [C // 2] * 2]             # only whole and half bins: every bin closes on an exact fill, no small filler
         vals, cert = [], []
         for b in range(m):
             parts = rng.choice(shapes)
@@ -190,4 +193,33 @@ def planted_covers(rng, count, maxitems=300):
         for newi, oldi in enumerate(perm):
             newvals[newi] = vals[oldi]; pos[oldi + 1] = newi + 1
         out.append({"vals": newvals, "C": C, "cert": [[pos[i] for i in b] for b in cert]})
+    return out
+
+
+def exact_fill_covers():
+    """deterministic planted covers made only of whole-bin and half-bin items (every bin closes on an exact fill); certificate = one bin per whole item / pair of halves"""
+    out = []
+    for C in (6, 10, 1200):
+        for whole, halves in ((15, 0), (17, 0), (24, 0), (40, 0), (12, 8), (6, 20), (0, 32), (20, 2)):
+            vals = [C] * whole + [C // 2] * (2 * halves)
+            cert = [[i + 1] for i in range(whole)] + [[whole + 2 * j + 1, whole + 2 * j + 2] for j in range(halves)]
+            out.append({"vals": vals, "C": C, "cert": cert})
+    return out
+
+
+def big_families(rng, count):
+    """magnitude tier: values between 2^24 and 2^50 with total < 2^53 (all bin sums exact in float64), at most 12 items"""
+    out = []
+    for i in range(count):
+        n = rng.randint(2, 9)
+        bits = rng.choice([25, 27, 31, 33, 40, 48, 49])
+        vals = [rng.randint(1 << 24, (1 << bits) - 1) for _ in range(n)]
+        if i % 4 == 0:
+            vals[rng.randrange(n)] = 0
+        if i % 5 == 0:
+            vals = vals + [vals[0]]            # a repeated huge value
+        if i % 7 == 0:
+            vals = [v | 1 for v in vals]       # odd: needs the last bit
+        assert sum(vals) < (1 << 53)
+        out.append({"vals": vals, "k": rng.randint(1, 4)})
     return out
